@@ -108,9 +108,12 @@ VJumpDiff(s, e) ==
 (* Split: e.parts[i] = [hist, rows, offset, jumps, nojumps]; offsets are a witness found by the harness *)
 VSplit(s, e) ==
   LET P == e.parts
-      whole == SeqToSet(EvRows(s.hist))
+      (* the thing being split: the behaviour's history, or (nested split) a part given by its own states and event table *)
+      wholeSeq == IF "whole" \in DOMAIN e THEN e.whole ELSE EvRows(s.hist)
+      wholeHist == IF "whist" \in DOMAIN e THEN e.whist ELSE s.hist
+      whole == SeqToSet(wholeSeq)
       back(i) == {[r EXCEPT ![6] = @ + P[i].offset] : r \in SeqToSet(P[i].rows)}
-      wj == SeqToSet(JumpRowsOfHist(s.hist, e.m))
+      wj == SeqToSet(JumpRows(wholeSeq, A0(s), e.m))
       jback(i) == {<<j[1], j[2], j[3], j[4] + P[i].offset, j[5] + P[i].offset>> : j \in SeqToSet(P[i].jumps)}
       RECURSIVE NRows(_)
       NRows(i) == IF i > Len(P) THEN 0 ELSE Len(P[i].rows) + NRows(i + 1)
@@ -118,7 +121,7 @@ VSplit(s, e) ==
       NJ(i) == IF i > Len(P) THEN 0 ELSE Len(P[i].jumps) + NJ(i + 1)
       s2 == [s EXCEPT !.parts = P, !.m = e.m]          \* remembered whatever the verdict, for the Rates record that follows
   IN IF Len(P) # e.k THEN <<"split-part-count", s2>>
-     ELSE IF Concat([i \in 1..Len(P) |-> P[i].hist]) # s.hist THEN <<"split-states-concat", s2>>
+     ELSE IF Concat([i \in 1..Len(P) |-> P[i].hist]) # wholeHist THEN <<"split-states-concat", s2>>
      ELSE IF \E i \in 1..Len(P) : P[i].offset < 0 THEN <<"split-events-no-offset", s2>>
      ELSE IF NRows(1) # Cardinality(whole) \/ UNION {back(i) : i \in 1..Len(P)} # whole THEN <<"split-events-exactly-once", s2>>
      ELSE IF \E i \in 1..Len(P) : \E r \in SeqToSet(P[i].rows) : r[6] < 0 THEN <<"split-time-negative", s2>>
